@@ -112,20 +112,26 @@ func statAll(store *transactionOnly, paths []string) ([]hackpadfs.FileInfo, []er
 	return infos, errs
 }
 
+// allErrs sets every element of 'errs' to 'err': callers index the results by path, a failure of the whole look-up is every path's failure
+func allErrs(errs []error, err error) []error {
+	for i := range errs {
+		errs[i] = err
+	}
+	return errs
+}
+
 func (fs *FS) getFiles(paths ...string) ([]*file, []error) {
 	files := make([]*file, len(paths))
 	errs := make([]error, len(paths))
 	for _, path := range paths {
 		if !hackpadfs.ValidPath(path) {
-			errs[0] = hackpadfs.ErrInvalid
-			return files, errs
+			return files, allErrs(errs, hackpadfs.ErrInvalid)
 		}
 	}
 
 	results, err := getFileRecords(fs.store, paths)
 	if err != nil {
-		errs[0] = err
-		return files, errs
+		return files, allErrs(errs, err)
 	}
 	for i := range paths {
 		result, err := results[i].Record, results[i].Err
